@@ -163,7 +163,8 @@ example : ∃ s',
 open PycModel.DeclSkel PycModel.TypeModify PycModel.View PycModel.FullExpr PycModel.DeclParse PycModel.BuildDecl in
 /-- **Declarations, from tokens to `Decl` nodes.** For every declaration
 
-    specifiers  declarator [= assignment-expression] {, declarator [= assignment-expression]} ;
+    specifiers  declarator [= initializer] {, declarator [= initializer]} ;
+    initializer ::= assignment-expression | { } | { initializer {, initializer} [,] }
 
 of any length - specifiers: qualifiers, storage classes (other than `typedef`), function specifiers,
 type keywords and typedef names of the environment, at least one type specifier; declarators:
@@ -219,7 +220,7 @@ example : ∃ s',
                .none, .none]] s' ∧ (∃ env, SeesT env s' []) := by
   let dc : Dcl :=
     { specs := [("STATIC", "static"), ("CONST", "const"), ("UNSIGNED", "unsigned"), ("LONG", "long")],
-      first := { d := .ptr [[]] (.arr (.name "p") (some (.const "INT_CONST_DEC" "3" "int"))), init := some (.id "x") },
+      first := { d := .ptr [[]] (.arr (.name "p") (some (.const "INT_CONST_DEC" "3" "int"))), init := some (.expr (.id "x")) },
       more := [{ d := .name "q", init := none }] }
   have hwf : WFDcl dc := by
     refine ⟨by simp [dc, SpecToks, quals3, storage5, typeSpecSimple, isTypeTok], ?_, rfl, ⟨?_, ?_⟩, ?_⟩
@@ -227,9 +228,49 @@ example : ∃ s',
       rcases ht with rfl | rfl | rfl | rfl <;> exact ⟨by decide, by decide⟩
     · refine .ptr _ _ (by simp) (by simp) (.arr _ _ (.name _) rfl ?_) rfl
       intro e h; cases h; exact .const _ _ _ _ (by decide)
-    · intro e h; cases h; exact .id _ _
+    · intro e h; cases h; exact .expr _ (.id _ _)
     · intro it hit; simp only [dc, List.mem_singleton] at hit; subst hit
       exact ⟨.name _, by intro e h; cases h⟩
+  have hs := ParenExpr.seesT_init (dc.flat ++ [])
+  obtain ⟨s', hr, hs', _⟩ := parse_declaration dc hwf (fun _ _ => rfl) _ [] hs 200 (by decide)
+  exact ⟨s', hr, _, hs'⟩
+
+open PycModel.DeclSkel PycModel.TypeModify PycModel.View PycModel.FullExpr PycModel.DeclParse PycModel.BuildDecl PycModel.Init in
+/-- non-vacuity, brace initializers: `int a [ 2 ] [ 2 ] = { { 1 , x } , { } , } ;` - nested lists stay
+nested, the trailing comma leaves no trace, the empty list is located at its `{`, a non-empty one at
+its first item -/
+example : ∃ s',
+    run 200 .declaration
+      (initState ([("INT", "int"), ("ID", "a"), ("LBRACKET", "["), ("INT_CONST_DEC", "2"), ("RBRACKET", "]"), ("LBRACKET", "["),
+                   ("INT_CONST_DEC", "2"), ("RBRACKET", "]"), ("EQUALS", "="), ("LBRACE", "{"), ("LBRACE", "{"),
+                   ("INT_CONST_DEC", "1"), ("COMMA", ","), ("ID", "x"), ("RBRACE", "}"), ("COMMA", ","), ("LBRACE", "{"),
+                   ("RBRACE", "}"), ("COMMA", ","), ("RBRACE", "}"), ("SEMI", ";")].map (fun t => SEv.tok t.1 t.2) ++ [.eof]))
+      = .ok [mk .Decl (tc 1) [.str "a", .list [], .list [], .list [], .list [],
+               mk .ArrayDecl (tc 1) [
+                 mk .ArrayDecl (tc 1) [
+                   mk .TypeDecl (tc 1) [.str "a", .list [], .none, mk .IdentifierType (tc 0) [.list [.str "int"]]],
+                   mk .Constant (tc 6) [.str "int", .str "2"], .list []],
+                 mk .Constant (tc 3) [.str "int", .str "2"], .list []],
+               mk .InitList (tc 11) [.list [
+                 mk .InitList (tc 11) [.list [mk .Constant (tc 11) [.str "int", .str "1"], mk .ID (tc 13) [.str "x"]]],
+                 mk .InitList (tc 16) [.list []]]],
+               .none]] s' ∧ (∃ env, SeesT env s' []) := by
+  let c1 : X := .const "INT_CONST_DEC" "1" "int"
+  let c2 : X := .const "INT_CONST_DEC" "2" "int"
+  let init : I := .list (.cons (.list (.cons (.expr c1) (.cons (.expr (.id "x")) .nil)) false) (.cons (.list .nil false) .nil)) true
+  let dc : Dcl :=
+    { specs := [("INT", "int")],
+      first := { d := .arr (.arr (.name "a") (some c2)) (some c2), init := some init },
+      more := [] }
+  have hc : ∀ c : X, c = c1 ∨ c = c2 → WFX 1 c := by
+    intro c h; rcases h with rfl | rfl <;> exact .const _ _ _ _ (by decide)
+  have hwf : WFDcl dc := by
+    refine ⟨by simp [dc, SpecToks, typeSpecSimple], ?_, rfl, ⟨?_, ?_⟩, by intro it h; cases h⟩
+    · intro t ht; simp only [dc, List.mem_singleton] at ht; subst ht; exact ⟨by decide, by decide⟩
+    · refine .arr _ _ (.arr _ _ (.name _) rfl ?_) rfl ?_ <;> (intro e h; cases h; exact hc _ (.inr rfl))
+    · intro i h; cases h
+      refine .list _ _ _ (.cons _ _ (.list _ _ _ (.cons _ _ (.expr _ (hc _ (.inl rfl))) (.cons _ _ (.expr _ (.id _ _)) .nil)))
+        (.cons _ _ .empty .nil))
   have hs := ParenExpr.seesT_init (dc.flat ++ [])
   obtain ⟨s', hr, hs', _⟩ := parse_declaration dc hwf (fun _ _ => rfl) _ [] hs 200 (by decide)
   exact ⟨s', hr, _, hs'⟩
